@@ -251,7 +251,7 @@ func c04Fastq(g *hx.Gen) {
 }
 
 func c04seqGen(g *hx.Gen) {
-	n := g.Scale(4000, 150000)
+	n := g.Scale(8000, 150000)
 	for k := 0; k < n && !g.Done(); k++ {
 		if g.Chance(0.55) {
 			c04Fasta(g)
